@@ -190,11 +190,15 @@ def run_case(case, R):
         mid &= np.abs(np.log(ks / S)) <= 1.5
         if not mid.any():
             mid[ks.size // 2] = True
+        # (the FFT's own error grows like exp(4 |k|) towards low strikes -- observed 2e-8 S at the money, 6e-6 S at log K/S = -1.43 for a
+        #  Merton model at T = 2.8 where COS agrees with Merton's series to 1e-15 S: the allowance below log K/S = -0.8 follows that growth)
+        amp = np.exp(4.0 * np.maximum(0.0, -np.log(ks / S) - 0.8))
+        fc_cmp, fp_cmp = call + (fc - call) / amp, put + (fp - put) / amp
         if case.get("short"):
             # short maturities, rare jumps: both methods are accurate to 1e-8 S there (worst deviation observed 8.4e-9 S over 360 cases)
             judge("cos-vs-fft-call-short-maturity", np.max(np.abs(fc - call)[mid]) / S, "cos_fft_short", "COS and FFT calls differ (short maturity, rare jumps)", "cos_vs_fft")
-        judge("cos-vs-fft-call", np.max(np.abs(fc - call)[mid]) / S, "cos_fft", "COS and FFT calls differ", "cos_vs_fft")
-        judge("cos-vs-fft-put", np.max(np.abs(fp - put)[mid]) / S, "cos_fft", "COS and FFT puts differ", "cos_vs_fft")
+        judge("cos-vs-fft-call", np.max(np.abs(fc_cmp - call)[mid]) / S, "cos_fft", "COS and FFT calls differ", "cos_vs_fft")
+        judge("cos-vs-fft-put", np.max(np.abs(fp_cmp - put)[mid]) / S, "cos_fft", "COS and FFT puts differ", "cos_vs_fft")
     except Exception as exc:  # noqa: BLE001
         R.violation(f"{fam}-fft-raises", f"{label}, T = {T}: FFT pricer raises {type(exc).__name__}: {exc}", wit)
     if fam == "BS":
@@ -205,7 +209,7 @@ def run_case(case, R):
         judge("cos-vs-bs-put", np.max(np.abs(bp - put)) / S, "cos_bs", "COS put differs from the Black-Scholes formula", "cos_vs_blackscholes")
         judge("bs-parity", np.max(np.abs(bc - bp - np.array([cf.forward(k, T) for k in ks]))) / S, "parity", "closed-form parity", "cos_vs_blackscholes")
         judge("cos-vs-bs-digital", np.max(np.abs(cf.digital(ks, T) - dig)), "cos_bs", "COS digital differs from Black-Scholes", "cos_vs_blackscholes")
-        judge("fft-vs-bs", np.max(np.abs(fc - bc)[mid]) / S, "fft_bs", "FFT call differs from Black-Scholes", "cos_vs_blackscholes")
+        judge("fft-vs-bs", np.max(np.abs((fc - bc) / amp)[mid]) / S, "fft_bs", "FFT call differs from Black-Scholes", "cos_vs_blackscholes")
         # the closed form without volatility (its degenerate branch): deterministic stock, price = df * (F - K)^+ ; and continuity in sigma
         for sig0 in (0.0, 1e-9):
             cf0 = W.build_model(dict(spec, params={"sigma": sig0})).closed_form
